@@ -6,6 +6,7 @@ import (
 	"encoding/json"
 	"fmt"
 	"math"
+	"strconv"
 	"testing"
 	"time"
 
@@ -478,10 +479,10 @@ func c09Max(a, b int64) int64 {
 
 // consumption of one dimension (0 cpu, 1 mem), literal reading of the statement
 type c09Cons struct {
-	sys, reserved          int64 // system usage (+ HP host applications), node reservation
-	use, req, mx           int64 // HP pods: usage (no-metric pods at request), request, larger of both; dangling HP metrics in use/mx
-	useNoMet0, mxNoMet0    int64 // the same but pods without metrics not charged (diagnosis only)
-	anyNoMetric            bool
+	sys, reserved       int64 // system usage (+ HP host applications), node reservation
+	use, req, mx        int64 // HP pods: usage (no-metric pods at request), request, larger of both; dangling HP metrics in use/mx
+	useNoMet0, mxNoMet0 int64 // the same but pods without metrics not charged (diagnosis only)
+	anyNoMetric         bool
 }
 
 type c09Share func(p *c09Pod, x int64) int64 // share of a pod-level amount that is charged (node: identity)
@@ -1234,29 +1235,78 @@ func TestVerifC09Prepare(t *testing.T) {
 		}
 		newNode.Status.Allocatable[extension.BatchCPU] = *resource.NewQuantity(7, resource.DecimalSI)
 		newNode.Status.Capacity[extension.BatchMemory] = *resource.NewQuantity(7, resource.BinarySI)
+		// extension 3: the stored quantities may carry a fractional part (rounded up in place by PrepareNodeForResource), and
+		// the reconciler runs the prepare chain 1 + (status sync) + (meta sync) times on the SAME NodeResource, every time
+		// on a fresh copy of the node: Prepare must be idempotent on the NodeResource
+		fracC, fracM := int64(0), int64(0)
+		if !deg && r.Chance(1, 6) {
+			fracC, fracM = r.Int63n(1000), r.Int63n(1000)
+			nr.Resources[extension.BatchCPU] = resource.NewMilliQuantity(res.cpu*1000+fracC, resource.DecimalSI)
+			nr.Resources[extension.BatchMemory] = resource.NewMilliQuantity(res.mem*1000+fracM, resource.BinarySI)
+			h.Op("bfrac %d %d", fracC, fracM)
+		}
+		if fracC > 0 {
+			res.cpu++ // what the statement bounds is the rounded-up quantity
+		}
+		if fracM > 0 {
+			res.mem++
+		}
+		prepares := 1 + r.Intn(3)
+		template := newNode
 		h.Op("bprep %d %d %d %d %d", ratio, vB(annoNil), tpKind, tc, tm)
 		pub := [2]int64{-1, -1}
-		if h.Guard(func() { err = p.Prepare(st, newNode, nr) }) {
-			h.Obs("panic")
+		var firstPub [2]int64
+		var firstOrigin string
+		aborted := false
+		for pi := 0; pi < prepares; pi++ {
+			if pi > 0 {
+				h.Op("bagain")
+			}
+			newNode = template.DeepCopy()
+			if h.Guard(func() { err = p.Prepare(st, newNode, nr) }) {
+				h.Obs("panic")
+				aborted = true
+				break
+			}
+			pub = [2]int64{-1, -1}
+			for d, name := range ResourceNames {
+				a, okA := newNode.Status.Allocatable[name]
+				c, okC := newNode.Status.Capacity[name]
+				if okA != okC || (okA && a.Cmp(c) != 0) {
+					h.Fail("C09:batch-capacity-allocatable-differ", "resource %s: allocatable %v(%v) capacity %v(%v)", name, a.Value(), okA, c.Value(), okC)
+				}
+				if okA {
+					pub[d] = a.Value()
+				}
+			}
+			h.Obs("bpub %d %d", pub[0], pub[1])
+			originTok := "origin none"
+			if origin, e := slov1alpha1.GetOriginExtendedAllocatable(newNode.Annotations); e == nil && origin != nil {
+				oc, om := origin.Resources[extension.BatchCPU], origin.Resources[extension.BatchMemory]
+				originTok = fmt.Sprintf("origin %d %d", oc.Value(), om.Value())
+			}
+			h.Obs("%s", originTok)
+			if pi == 0 {
+				firstPub, firstOrigin = pub, originTok
+			} else if pub != firstPub || originTok != firstOrigin {
+				h.Fail("C09:prepare-not-idempotent", "Prepare #%d on the same NodeResource put batch (%d,%d) [%s] on a fresh node copy, Prepare #1 put (%d,%d) [%s]; calculated (%d,%d) ratio %d%%",
+					pi+1, pub[0], pub[1], originTok, firstPub[0], firstPub[1], firstOrigin, res.cpu, res.mem, ratio)
+			}
+		}
+		if aborted {
 			h.End()
 			continue
 		}
-		for d, name := range ResourceNames {
-			a, okA := newNode.Status.Allocatable[name]
-			c, okC := newNode.Status.Capacity[name]
-			if okA != okC || (okA && a.Cmp(c) != 0) {
-				h.Fail("C09:batch-capacity-allocatable-differ", "resource %s: allocatable %v(%v) capacity %v(%v)", name, a.Value(), okA, c.Value(), okC)
+		h.Tag(fmt.Sprintf("prep:prepares=%d", prepares))
+		h.Tag(fmt.Sprintf("prep:frac=%v", fracC > 0 || fracM > 0))
+		if ratio > 100 && !deg {
+			// AmpOK: float64 int64(float64(v) * ratio) is monotone in v and never above the exact product
+			m := res.cpu * 1000
+			ratioF, _ := strconv.ParseFloat(ratioStr, 64)
+			f0, f1 := int64(float64(m)*ratioF), int64(float64(m+1)*ratioF)
+			if f0 > f1 || f0*100 > m*ratio || f0 != int64(float64(m)*(float64(ratio)/100)) {
+				h.Fail("C09:float-assumption", "MultiplyMilliQuant(%dm, %s): %d, next %d, exact %d*%d/100", m, ratioStr, f0, f1, m, ratio)
 			}
-			if okA {
-				pub[d] = a.Value()
-			}
-		}
-		h.Obs("bpub %d %d", pub[0], pub[1])
-		if origin, e := slov1alpha1.GetOriginExtendedAllocatable(newNode.Annotations); e != nil || origin == nil {
-			h.Obs("origin none")
-		} else {
-			oc, om := origin.Resources[extension.BatchCPU], origin.Resources[extension.BatchMemory]
-			h.Obs("origin %d %d", oc.Value(), om.Value())
 		}
 		// oracle: stale => withdrawn; fresh => 0 <= published <= calculated (amplified for cpu), third party only lowers
 		if c09Stale(s) {
@@ -1333,7 +1383,8 @@ func TestVerifC09Prepare(t *testing.T) {
 		h.End()
 	}
 	h.Close("batch plugin glue: the scenarios of the batch stream (no NRT) -> Calculate -> NewNodeResource (+ cpu-normalization ratio annotation: absent, 1.00, >1, <1, " +
-		"unparsable) -> Prepare on a node with nil / empty annotations, third-party allocations absent / unparsable / two batch entries + one prod entry (missing keys) -> " +
+		"unparsable; 1/6 of the fresh cases with a fractional part on the stored quantities) -> Prepare 1-3 times on the same NodeResource, each time on a fresh copy of a node " +
+		"with nil / empty annotations, third-party allocations absent / unparsable / two batch entries + one prod entry (missing keys) -> " +
 		"NeedSync against an old amount on/around the diff boundary; non-trivial = fresh metrics and a positive amount on the node; distinct by op lines")
 }
 
@@ -1429,4 +1480,139 @@ func TestVerifC09Exhaustive(t *testing.T) {
 	h.Close("exhaustive small scope: 3 policies x reclaim thresholds {0,50,100,150} x batch cap {none,0,50,100,150} (<=1 pod) / {none,50} (2-3 pods) x every multiset of <= 2 pods over " +
 		"(priority label absent/prod/mid/batch/free) x (QoS label absent/LSE/LSR/LS/BE) x (no metric / usage < request / usage > request) and every 3-pod multiset of classes with " +
 		"rotating metric patterns, on a 100-unit node; non-trivial = >= 1 pod and a positive amount")
+}
+
+// ---------- exhaustive small scope: Prepare on hand-built NodeResources, three times each ----------
+
+// TestVerifC09PrepareExhaustive enumerates ratio annotation {absent, 1.00, 1.01, 1.20, 2.35, 5.00, 0.99, unparsable, -1.50, 0}
+// x stored batch-cpu {nil, 0, 1m, 999m, 1, 1001m, 2500m, 40000} x stored batch-memory {nil, 0, 1500m, 7} x Reset x
+// nil / empty node annotations x third-party allocations {absent, (1,1)} and runs the real Prepare THREE times on the
+// same NodeResource (what one reconcile does: need-sync check, status update, meta patch), each on a fresh node copy.
+func TestVerifC09PrepareExhaustive(t *testing.T) {
+	h := vOpen("C09")
+	if h == nil {
+		t.Skip("VERIF_OUT not set")
+	}
+	type rt struct {
+		str  string
+		has  bool
+		kind int
+		pct  int64
+	}
+	ratios := []rt{{"", false, 0, 0}, {"1.00", true, 2, 100}, {"1.01", true, 2, 101}, {"1.20", true, 2, 120}, {"2.35", true, 2, 235},
+		{"5.00", true, 2, 500}, {"0.99", true, 2, 99}, {"abc", true, 1, 0}, {"-1.50", true, 2, -150}, {"0", true, 2, 0}}
+	cpus := []int64{-1, 0, 1, 999, 1000, 1001, 2500, 40000000}
+	mems := []int64{-1, 0, 1500, 7000}
+	p := &Plugin{}
+	idx := 0
+	for _, ra := range ratios {
+		for _, qc := range cpus {
+			for _, qm := range mems {
+				for reset := 0; reset < 2; reset++ {
+					for annoNil := 0; annoNil < 2; annoNil++ {
+						for tp := 0; tp < 2; tp++ {
+							if annoNil == 1 && tp == 1 {
+								continue
+							}
+							r := h.Begin(idx)
+							idx++
+							if r == nil {
+								continue
+							}
+							nr := framework.NewNodeResource()
+							if qc >= 0 {
+								nr.Resources[extension.BatchCPU] = resource.NewMilliQuantity(qc, resource.DecimalSI)
+							}
+							if qm >= 0 {
+								nr.Resources[extension.BatchMemory] = resource.NewMilliQuantity(qm, resource.BinarySI)
+							}
+							nr.Resets[extension.BatchCPU], nr.Resets[extension.BatchMemory] = reset == 1, reset == 1
+							if ra.has {
+								nr.Annotations[extension.AnnotationCPUNormalizationRatio] = ra.str
+							}
+							template := &corev1.Node{ObjectMeta: metav1.ObjectMeta{Name: "n0"}}
+							template.Status.Allocatable = corev1.ResourceList{extension.BatchCPU: *resource.NewQuantity(7, resource.DecimalSI)}
+							template.Status.Capacity = corev1.ResourceList{extension.BatchMemory: *resource.NewQuantity(7, resource.BinarySI)}
+							tpKind, tc, tm := 0, int64(-1), int64(-1)
+							if annoNil == 0 {
+								template.Annotations = map[string]string{}
+								if tp == 1 {
+									tpKind, tc, tm = 2, 1, 1
+									b, _ := json.Marshal(slov1alpha1.ThirdPartyAllocations{Allocations: []slov1alpha1.ThirdPartyAllocation{{Name: "yarn", Priority: extension.PriorityBatch,
+										Resources: corev1.ResourceList{extension.BatchCPU: *resource.NewQuantity(1, resource.DecimalSI), extension.BatchMemory: *resource.NewQuantity(1, resource.BinarySI)}}}})
+									template.Annotations[slov1alpha1.NodeThirdPartyAllocationsAnnotationKey] = string(b)
+								}
+							}
+							h.Op("bnr %d %d %d %d %d %d %d %d %d", qc, qm, reset, ra.kind, ra.pct, annoNil, tpKind, tc, tm)
+							var first [2]int64
+							ok := true
+							for pi := 0; pi < 3 && ok; pi++ {
+								if pi > 0 {
+									h.Op("bagain")
+								}
+								node := template.DeepCopy()
+								if h.Guard(func() { _ = p.Prepare(nil, node, nr) }) {
+									h.Obs("panic")
+									ok = false
+									break
+								}
+								pub := [2]int64{-1, -1}
+								for d, name := range ResourceNames {
+									a, okA := node.Status.Allocatable[name]
+									c, okC := node.Status.Capacity[name]
+									if okA != okC || (okA && a.Cmp(c) != 0) {
+										h.Fail("C09:batch-capacity-allocatable-differ", "resource %s: allocatable %v(%v) capacity %v(%v)", name, a.Value(), okA, c.Value(), okC)
+									}
+									if okA {
+										pub[d] = a.Value()
+									}
+								}
+								h.Obs("bpub %d %d", pub[0], pub[1])
+								if origin, e := slov1alpha1.GetOriginExtendedAllocatable(node.Annotations); e != nil || origin == nil {
+									h.Obs("origin none")
+								} else {
+									oc, om := origin.Resources[extension.BatchCPU], origin.Resources[extension.BatchMemory]
+									h.Obs("origin %d %d", oc.Value(), om.Value())
+								}
+								if pi == 0 {
+									first = pub
+									// oracle on the first prepare: nil / Reset => absent; otherwise the rounded-up stored amount, amplified once when ratio > 1.0
+									wantC, wantM := int64(-1), int64(-1)
+									if reset == 0 {
+										if qc >= 0 {
+											wantC = (qc + 999) / 1000
+											if ra.kind == 2 && ra.pct > 100 {
+												wantC = (int64(float64(qc)*(float64(ra.pct)/100)) + 999) / 1000
+											}
+										}
+										if qm >= 0 {
+											wantM = (qm + 999) / 1000
+										}
+										if tpKind == 2 && wantC >= 0 && wantM >= 0 {
+											wantC, wantM = c09P0(wantC-1), c09P0(wantM-1)
+										}
+									}
+									if pub[0] != wantC || pub[1] != wantM {
+										h.Fail("C09:prepare-amount", "stored (%dm,%dm) reset %d ratio %q third-party %d: node carries (%d,%d), expected (%d,%d)", qc, qm, reset, ra.str, tpKind, pub[0], pub[1], wantC, wantM)
+									}
+								} else if pub != first {
+									h.Fail("C09:prepare-not-idempotent", "Prepare #%d on the same NodeResource put batch (%d,%d) on a fresh node copy, Prepare #1 put (%d,%d); stored (%dm,%dm) ratio %q",
+										pi+1, pub[0], pub[1], first[0], first[1], qc, qm, ra.str)
+								}
+							}
+							if ok && (first[0] > 0 || first[1] > 0) {
+								h.Nontrivial()
+							}
+							h.Tag(fmt.Sprintf("prepexh:amplified=%v", ra.kind == 2 && ra.pct > 100 && qc > 0 && reset == 0))
+							h.End()
+						}
+					}
+				}
+			}
+		}
+	}
+	h.Extra("exhaustive", fmt.Sprintf("ratio annotation x stored cpu x stored memory x reset x annotations x third party, 3 prepares each: %d cases", idx))
+	h.Close("exhaustive small scope of Prepare on hand-built NodeResources: 10 ratio annotations (absent, =1, just above 1, 1.20, 2.35, 5.00, below 1, unparsable, negative, zero) x " +
+		"8 stored batch-cpu quantities (nil, 0, fractional, integral, large) x 4 stored batch-memory quantities x Reset x nil / empty node annotations x third-party allocations, " +
+		"the real Prepare run three times on the same NodeResource; non-trivial = a positive amount on the node")
 }
